@@ -145,7 +145,7 @@ VARIANTS = [
     (RAND, "    state = RandomState(state_data)\n    func = getattr(state, funcname)", "    state = RandomState()\n    func = getattr(state, funcname)", "EFFECT.per-chunk"),
     (RAND, "    return state.choice(a, size=size, replace=replace, p=p, axis=axis, shuffle=shuffle)", "    return state.choice(a, size=size, p=p, axis=axis, shuffle=shuffle)", "DELEG.choice"),
     (RAND, '        return _wrap_func(self, "beta", a, b, size=size, chunks=chunks, **kwargs)\n\n    @derived_from(np.random.Generator, skipblocks=1)\n    def binomial', '        return _wrap_func(self, "beta", b, a, size=size, chunks=chunks, **kwargs)\n\n    @derived_from(np.random.Generator, skipblocks=1)\n    def binomial', "NAME.methods"),
-    (RAND, "        bitgens = random_state_data(len(sizes), rng._numpy_state)\n        bitgen_token = tokenize(bitgens)", "        bitgens = random_state_data(len(sizes), rng._numpy_state)\n        bitgen_token = tokenize(len(bitgens))", "bitgen_token_sites"),
+    (RAND, "        bitgens = random_state_data(len(sizes), rng._numpy_state)\n        bitgen_token = tokenize(bitgens)", "        bitgens = random_state_data(len(sizes), rng._numpy_state)\n        bitgen_token = tokenize(len(bitgens))", "TOKFLOW.wrap.state-token"),
     (RAND, "            k: Task(k, _choice_rng, bitgen, a, size, replace, p, axis, shuffle)", "            k: Task(k, _choice_rng, bitgens[0], a, size, replace, p, axis, shuffle)", "PAIR.one-state.choice"),
     (RAND, "    seeds = bitgen._seed_seq.spawn(n_bitgens)", "    seeds = [bitgen._seed_seq] * n_bitgens", "EFFECT.spawn"),
 ]
